@@ -80,7 +80,10 @@ def modelled : List String := [
   "ff.<decls>@doc.go",
   "ff.<decls>@element.go",
   "ff.<decls>@element_ops_amd64.go",
-  "ff.<decls>@element_ops_noasm.go"
+  "ff.<decls>@element_ops_noasm.go",
+  "module.<deps>@go.mod",
+  "module.<deps>@go.sum",
+  "module.<deps>@vendor"
 ]
 
 theorem source_pinned : modelled.all (same I3.Gen.fingerprints) = true := by decide +kernel
@@ -88,6 +91,6 @@ theorem source_pinned : modelled.all (same I3.Gen.fingerprints) = true := by dec
 theorem function_set_pinned : (["ff."] : List String).all (sameKeys I3.Gen.fingerprints) = true := by
   decide +kernel
 
-theorem modelled_nonempty : 72 = modelled.length := by decide
+theorem modelled_nonempty : 75 = modelled.length := by decide
 
 end I3.Props.C05
